@@ -266,9 +266,12 @@ enum Act {
     /// ONE read of A's link holding a publish on a topic A itself may be subscribed to, followed by the packet that ends the
     /// connection (0: an unsolicited PUBACK, 1: DISCONNECT) — the batch wakes A's own parked request and closes A
     BatchPubThenEndA(u8),
+    /// shared subscriptions with unusual names: 0 a multi-byte group name, 1 an empty group name and an empty filter
+    SubShareOddA(u8),
 }
 
-const ACTS: [Act; 32] = [
+const ACTS: [Act; 34] = [
+    Act::SubShareOddA(0), Act::SubShareOddA(1),
     Act::BatchPubThenEndA(0), Act::BatchPubThenEndA(1),
     Act::SubPlainAndSharedA, Act::SubRefusedA(0), Act::SubRefusedA(1),
     Act::SubAThenDropUnserved, Act::PubBThenDropUnserved, Act::ConnectThenDropUnserved,
@@ -308,6 +311,12 @@ fn apply(r: &mut Router, a: &mut Option<Client>, b: &mut Option<Client>, act: Ac
         Act::DeviceData(id) => { r.events(id, Event::DeviceData); settle(r); }
         Act::Shadow(id) => { r.events(id, Event::Shadow(ShadowRequest { filter: "t/x".to_owned() })); settle(r); }
         Act::Will => { r.events(0, Event::PublishWill(("a".to_owned(), None))); settle(r); }
+        Act::SubShareOddA(k) => {
+            if let Some(c) = a {
+                let pkt = if k == 0 { subscribe(8, &[("$share/\u{f1}\u{1F600}/t/+", 1)]) } else { subscribe(8, &[("$share//t/x", 0), ("$share/g/", 0), ("$share/g", 0)]) };
+                send(r, c, vec![pkt]);
+            }
+        }
         Act::BatchPubThenEndA(k) => {
             if let Some(c) = a {
                 let end = if k == 0 { puback(42) } else { Packet::Disconnect(crate::protocol::Disconnect { reason_code: crate::protocol::DisconnectReasonCode::NormalDisconnection }, None) };
